@@ -51,8 +51,11 @@ ASSUMPTIONS = [
     "max|B·Bᵀ·C − I| is recorded in the evidence)",
     "the row order, the sum model, lmfit_jacobian's munging and the stderr loop are hand models tied to the code "
     "only by this sampled correspondence; the seven arithmetic leaves are regenerated from source on every run",
-    "the list-level model lmfitJac is tied to the Matrix-level lmfitJacM of whitening_consistent by reading, not "
-    "by a theorem",
+    "the Fisher-matrix theorems (covar_is_fisher, covar_psd_pd, circular_component_singular) are about the exact "
+    "real-number matrix; where it is singular (sx = sy with theta free) the property is silent and the observed "
+    "behaviour of covar_errors is recorded under degenerate_probes, not judged",
+    "fitting.hessian is outside the statement (not handed to the optimiser); it is observed, not judged "
+    "(hessian_observation)",
 ]
 TRUSTED = ["Gen.C04.gauss/dmds/dmdxo/dmdyo/dmdsx/dmdsy/dmdtheta regenerated from fitting.elliptical_gaussian and "
            "fitting.jacobian by py2lean.py (real mode, + np.pi extension in translator/targets/C04.py)",
@@ -581,6 +584,94 @@ def bmatrix_contract(ctx):
     ctx.extra['bmatrix_contract_max_abs_BBtC_minus_I'] = worst
 
 
+def degenerate_probes(ctx):
+    """observations recorded in the evidence (never failures: the property is silent where the Fisher matrix
+       has no inverse).  (a) sx = sy with theta free: the theta row is identically zero (theorem
+       circular_component_singular), scipy's inv raises, covar_errors marks every free parameter with -2.
+       (b) the same with fewer unmasked pixels than free parameters: the except branch builds
+       `[-2] * npix`, shorter than the number of free parameters."""
+    fitting = fit()
+    out = {}
+    comp = (2.0, 4.0, 4.0, 1.5, 1.5, 30.0)
+    p = mk_params([comp], [63])
+    data = np.ones((9, 9))
+    mx, my = np.where(np.isfinite(data))
+    with np.errstate(all='ignore'):
+        J = np.asarray(fitting.jacobian(p, mx, my), dtype=float)
+        out['circular_theta_row_max_abs'] = float(np.max(np.abs(J[5])))
+        try:
+            fitting.covar_errors(p, data, errs=1.0, B=None)
+            out['circular_stderr'] = {n: (None if p[f'c0_{n}'].stderr is None else float(p[f'c0_{n}'].stderr)) for n in PARS}
+        except Exception as e:
+            out['circular_stderr'] = f'raised {type(e).__name__}: {e}'
+        p = mk_params([(2.0, 0.5, 0.5, 1.5, 1.5, 30.0)], [63])
+        try:
+            fitting.covar_errors(p, np.ones((2, 2)), errs=1.0, B=None)
+            out['singular_4_pixels_6_free'] = {n: (None if p[f'c0_{n}'].stderr is None else float(p[f'c0_{n}'].stderr)) for n in PARS}
+        except Exception as e:
+            out['singular_4_pixels_6_free'] = f'raised {type(e).__name__}: {e}'
+    ctx.extra['degenerate_probes'] = out
+    r = out['singular_4_pixels_6_free']
+    if isinstance(r, str) and 'IndexError' in r and any(
+            e.get('id') == 'C04-except-branch-length' and e.get('status') == 'open' for e in common.load_known('C04')):
+        # reported only while the open known finding is registered (prints KNOWN-FINDING, not VIOLATION)
+        ctx.fail('spec', dict(kind='except-branch', comp=[2.0, 0.5, 0.5, 1.5, 1.5, 30.0], mask=63, shape=[2, 2], errs=1.0),
+                 "covar_errors " + r + " (singular Fisher matrix, 4 unmasked pixels, 6 free parameters)",
+                 dict(site='fitting.covar_errors', what='raises', error='IndexError',
+                      singular_fewer_pixels_than_free=True))
+    ctx.count('degenerate-probe', 2)
+
+
+def hessian_observation(ctx):
+    """OBSERVATION, never a failure: `fitting.hessian` (used by RB_bias, not handed to the optimiser, hence
+       outside the statement of C04) against Richardson finite differences of `fitting.jacobian`, entry by
+       entry, single component, all parameters free.  Records the ratio hessian/true per entry.  In the thorough
+       tier also builds Aegean/Proofs/C04Hessian.lean (theorems about the regenerated h_P_Q) and records
+       whether it still checks."""
+    fitting = fit()
+    rng = ctx.rng
+    c = list(rand_comp(rng, 10, 10))
+    x = np.array([[float(rng.randint(2, 7))]])
+    y = np.array([[float(rng.randint(2, 7))]])
+    out = dict(comp=c, pixel=[float(x[0, 0]), float(y[0, 0])])
+    try:
+        with np.errstate(all='ignore'):
+            H = np.asarray(fitting.hessian(mk_params([tuple(c)], [63]), x, y), dtype=float)[:, :, 0, 0]
+
+            def jac(cc):
+                return np.asarray(fitting.jacobian(mk_params([tuple(cc)], [63]), x, y), dtype=float)[:, 0, 0]
+            T = np.zeros((6, 6))
+            for p in range(6):
+                def f(v, p=p):
+                    cc = list(c)
+                    cc[p] = v
+                    return jac(cc)
+                T[p] = richardson(f, c[p], 1e-3 * max(1.0, abs(c[p])))
+        table = {}
+        for p in range(6):
+            for q in range(p, 6):
+                t, h = T[p, q], H[p, q]
+                if abs(t) > 1e-9 * abs(c[0]):
+                    r = h / t
+                    lab = ('ok' if abs(r - 1) < 1e-5 else
+                           'x 180/pi (per radian)' if abs(r - 180 / math.pi) < 1e-3 else
+                           'x (180/pi)^2' if abs(r - (180 / math.pi) ** 2) < 1 else
+                           'x amp' if abs(r - c[0]) < 1e-4 * abs(c[0]) else f'ratio {r:.6g}')
+                else:
+                    lab = 'ok' if abs(h - t) < 1e-7 * abs(c[0]) else f'hessian {h:.3g} true {t:.3g}'
+                table[f'{PARS[p]},{PARS[q]}'] = lab
+        out['hessian_over_true_second_derivative'] = table
+        out['symmetric'] = bool(np.max(np.abs(H - H.T)) == 0)
+    except Exception as e:
+        out['error'] = f'{type(e).__name__}: {e}'
+    if not ctx.quick:
+        ok, log = common.lean_build(['Aegean.Proofs.C04Hessian'])
+        out['lean_C04Hessian'] = 'checks' if ok else common.lean_errors(log, 5)
+    out['scope'] = ("not part of the verdict: C04 speaks of the derivatives handed to the optimiser "
+                    "(fitting.jacobian / lmfit_jacobian); fitting.hessian feeds RB_bias / bias_correct")
+    ctx.extra['hessian_observation'] = out
+
+
 def run(ctx):
     common.use_repo()
     run_models(ctx, [model_from_case(c) for c in corpus_cases()], tag='corpus')
@@ -594,6 +685,8 @@ def run(ctx):
         run_models(ctx, models[chunk:chunk + 100])
     index_sweep(ctx, sweep_lists(ctx))
     bmatrix_contract(ctx)
+    degenerate_probes(ctx)
+    hessian_observation(ctx)
     # implementation vs the property directly (cheap; independent of which obligation broke)
     leaf_spec_probe(ctx, 60 if ctx.quick else 600)
     seen = ctx.extra.pop('_masks_seen', set())
@@ -737,6 +830,8 @@ def replay(ctx, rec):
         return
     if c.get('kind') == 'model':
         return search(ctx)
+    if c.get('kind') == 'except-branch':
+        return degenerate_probes(ctx)
     m = model_from_case(c)
     run_models(ctx, [m], tag='replay', truth=True)
     run_models(ctx, [m], tag='replay')
